@@ -48,6 +48,23 @@ def run(tier):
     ok = len(fails) == 1 and fails[0][0] == corrupt
     print("%-70s %s" % ("JudgeA accepts a genuine record and rejects a corrupted one", "ok" if ok else "UNEXPECTED"))
     good &= ok
+    # the session replay must accept a genuine behaviour of Monorail.tla and reject the same behaviour with one logged
+    # field corrupted (the binding is not vacuous)
+    import session, copy
+    class _C:
+        seed = 4; tier = "quick"; cov = {"traces_validated_against_impl": 0}; notes = []
+        def model_violation(self, *a):
+            raise vlib.ToolError("MCSession violated on the model itself")
+    bins = vlib.build()
+    behs = session.generate(_C(), 8, 40, 4)
+    genuine = next(b for b in behs if any(h["a"] == "RunEffect" and h["x"][0] == "ptrwrite" for h in b))
+    corrupt = copy.deepcopy(genuine)
+    i = next(k for k, h in enumerate(corrupt) if h["a"] == "RunEffect" and h["x"][0] == "ptrwrite")
+    corrupt[i]["post"]["store"]["ptr"] = 2 if corrupt[i]["post"]["store"]["ptr"] == 1 else 1
+    r1, r2 = session.replay_all(bins, [genuine, corrupt], workers=2)
+    ok = (not r1.mismatches) and bool(r2.mismatches) and r2.mismatches[0][2] == i
+    print("%-70s %s" % ("session replay accepts a genuine behaviour, rejects a corrupted pointer", "ok" if ok else "UNEXPECTED"))
+    good &= ok
     if not good:
         raise vlib.ToolError("selftest failed")
     return 0
